@@ -309,8 +309,7 @@ fn answer_pre_in(p: &Preprocessor, ctx: &mut PreprocessorContext, out: &mut Prep
     labels.sort();
     let mut fns: Vec<(String, usize)> = ctx.fn_map.iter().map(|(k, v)| (k.clone(), *v)).collect();
     fns.sort();
-    let mut und: Vec<(usize, String)> = ctx.undefined_labels.iter().map(|(a, b)| (*a, b.clone())).collect();
-    und.sort();
+    let und: Vec<(usize, String)> = crate::pipeline::undef_pairs(ctx.undefined_labels.iter());
     let mut sm: Vec<(usize, usize)> = ctx.mapper.get_source_map().into_iter().collect();
     sm.sort();
     format!("{:?} code={:?} data={:?} labels={:?} fns={:?} undefined={:?} map={:?}", r, out.code, out.data, labels, fns, und, sm)
@@ -326,8 +325,7 @@ fn answer_pre_new_objects(p: &Preprocessor, text: &str) -> String {
     labels.sort();
     let mut fns: Vec<(String, usize)> = ctx.fn_map.iter().map(|(k, v)| (k.clone(), *v)).collect();
     fns.sort();
-    let mut und: Vec<(usize, String)> = ctx.undefined_labels.iter().map(|(a, b)| (*a, b.clone())).collect();
-    und.sort();
+    let und: Vec<(usize, String)> = crate::pipeline::undef_pairs(ctx.undefined_labels.iter());
     let mut sm: Vec<(usize, usize)> = std::mem::take(&mut ctx.mapper).get_source_map().into_iter().collect();
     sm.sort();
     format!("{:?} code={:?} data={:?} labels={:?} fns={:?} undefined={:?} map={:?}", r, out.code, out.data, labels, fns, und, sm)
